@@ -21,7 +21,7 @@ alloy::sol! {
     function getLockedPkscript(bytes pkscript, uint256 lock_block_count) returns (bytes locked_pkscript);
 }
 
-const KINDS: [&str; 10] = ["sstore", "sload+log", "loop", "call-child", "create", "sha256", "locked-pkscript", "revert", "return", "invalid"];
+const KINDS: [&str; 12] = ["sstore", "sload+log", "loop", "call-child", "create", "sha256", "locked-pkscript", "revert", "return", "invalid", "number", "blockhash"];
 
 fn program(stmts: &[usize]) -> Vec<u8> {
     let mut a = Asm::new();
@@ -70,8 +70,16 @@ fn program(stmts: &[usize]) -> Vec<u8> {
             8 => {
                 a.push(32).push(0).op(0xf3);
             }
-            _ => {
+            9 => {
                 a.op(0xfe);
+            }
+            10 => {
+                // NUMBER -> mem[0] (the height being built is part of what a simulation must predict)
+                a.op(0x43).push(0).op(0x52);
+            }
+            _ => {
+                // BLOCKHASH(NUMBER - 1) -> mem[0]
+                a.push(1).op(0x43).op(0x03).op(0x40).push(0).op(0x52);
             }
         }
     }
@@ -151,6 +159,7 @@ pub struct GStats {
     sim_failure: u64,
     estimates: u64,
     lens_checked: u64,
+    drained: u64,
     out_of_gas: u64,
     creations: u64,
     violations: Vec<Violation>,
@@ -363,6 +372,49 @@ pub fn worker(which: &str, tier: &str, shard: u64, nshards: u64, budget_s: f64) 
                     }
                     let _ = out_full;
                 }
+                // ---- C16: a transaction drained from the pending pool keeps the allowance of its own
+                // inscription, whatever the allowance of the call that triggers it ----
+                if which == "C16" && si == 0 && d[0] == 3 {
+                    let signer = addr_s(crate::sign::signer_addr(0));
+                    let (sok, sdata) = sim(&mut a, &signer, Some(&target), d);
+                    let est = a.call("eth_estimateGas", json!([{"from": signer, "to": target, "data": hx(d)}, null])).result().and_then(|x| x.as_str()).and_then(parse_hex_u64);
+                    let trigger = |len: u64| TxSpec::Transact { signer: 0, nonce: 0, tgt: Tgt::s(), data: vec![6, 0], len };
+                    let mut variants: Vec<(u64, u64, &str)> = vec![(1, DEFAULT_LEN, "own allowance 1 byte, trigger 100000 bytes")];
+                    if let (true, Some(g)) = (sok, est) {
+                        variants.push((g.div_ceil(GAS_PER_BYTE), 3, "own allowance = estimate, trigger 3 bytes"));
+                        variants.push((g.div_ceil(GAS_PER_BYTE), DEFAULT_LEN, "own allowance = estimate, trigger 100000 bytes"));
+                    }
+                    for (own_len, trig_len, vname) in variants {
+                        st.lens_checked += 1;
+                        let mut w = worlds[0].clone();
+                        let parked = TxSpec::Transact { signer: 0, nonce: 1, tgt: prog_tgt(), data: d.clone(), len: own_len };
+                        w.exec(&mut a, &Step::Tx(parked));
+                        w.exec(&mut a, &Step::Fin);
+                        let o = w.exec(&mut a, &Step::Tx(trigger(trig_len)));
+                        let rcs = o.outcome.result().and_then(|x| x.as_array().cloned()).unwrap_or_default();
+                        if rcs.len() == 2 {
+                            st.drained += 1;
+                            let rc = &rcs[1];
+                            let g = hexu(&rc["gasUsed"]);
+                            let allowance = own_len.saturating_mul(GAS_PER_BYTE);
+                            if g > allowance {
+                                st.violations.push(mk("allowance-exceeded", format!("{} (drained: {})", what, vname), format!("a parked transaction with inscription length {} (allowance {}) drained by a call with inscription length {} records gasUsed {}", own_len, allowance, trig_len, g)));
+                            }
+                            let status = rc["status"].as_str() == Some("0x1");
+                            if own_len == 1 && status {
+                                st.violations.push(mk("allowance-exceeded", format!("{} (drained: {})", what, vname), format!("a parked transaction with a 1-byte inscription succeeded when drained by a call with inscription length {}", trig_len)));
+                            }
+                            if own_len > 1 && !status {
+                                let th = rc["transactionHash"].clone();
+                                let out = a.call("debug_traceTransaction", json!([th])).result().and_then(|t| t["output"].as_str().map(|s| s.to_string())).unwrap_or_default();
+                                st.violations.push(mk("estimate-insufficient", format!("{} (drained: {})", what, vname), format!("estimate {:?} -> inscription length {}: the parked transaction drained by a call with inscription length {} failed (gasUsed {}, output {}, eth_call predicted {})", est, own_len, trig_len, rc["gasUsed"], trunc(&out, 80), trunc(&sdata, 80))));
+                            }
+                        } else {
+                            st.errors.push(format!("{}: the trigger did not drain the parked transaction ({} receipts)", what, rcs.len()));
+                        }
+                        a.call("brc20_clearCaches", json!([]));
+                    }
+                }
                 if st.samples.len() < 4 && st.cases % 331 == 5 {
                     st.samples.push(json!({"program": pname, "calldata_n": d[0], "simulation": {"success": ok, "data": trunc(&data, 80)}}));
                 }
@@ -398,6 +450,7 @@ pub fn run(which: &str, tier: &str, seed: u64) -> i32 {
                 t.sim_failure += g.sim_failure;
                 t.estimates += g.estimates;
                 t.lens_checked += g.lens_checked;
+                t.drained += g.drained;
                 t.out_of_gas += g.out_of_gas;
                 t.creations += g.creations;
                 t.violations.extend(g.violations);
@@ -415,14 +468,14 @@ pub fn run(which: &str, tier: &str, seed: u64) -> i32 {
         "evaluations": if which == "C16" { t.lens_checked + t.estimates } else { t.cases + t.creations }, "distinct_nontrivial": t.cases,
         "rule": format!("programs: every sequence of <= 3 statements over {:?} ({} programs) x call data n in {{0, 3, 200}} x 2 engine states (thorough: plus the 36 chain states reached by all histories of length 2 over a 6-operation alphabet, each with a rotating sixth of the programs). C17: eth_call at the block boundary vs status and trace output of the same call submitted next; simulated creation vs installed code. C16: inscription lengths {{0, 1, need-1, need, need+1, estimate/12000 rounded up, 2^64-1}}: gasUsed <= 12000 x length (saturating); a transaction that exhausts its allowance changes nothing but its sender's nonce (and its own transaction rows); the estimated length succeeds on a twin instance with the output eth_call predicted. distinct_nontrivial = (program, call data, state) cases", KINDS, progs),
         "samples": t.samples.iter().take(6).collect::<Vec<_>>(),
-        "programs": progs, "cases": t.cases, "simulations_succeeding": t.sim_success, "simulations_failing": t.sim_failure, "estimates_checked_on_twin": t.estimates, "inscription_lengths_checked": t.lens_checked, "out_of_allowance_cases": t.out_of_gas, "simulated_creations": t.creations,
+        "programs": progs, "cases": t.cases, "simulations_succeeding": t.sim_success, "simulations_failing": t.sim_failure, "estimates_checked_on_twin": t.estimates, "inscription_lengths_checked": t.lens_checked, "drained_pending_transactions_checked": t.drained, "out_of_allowance_cases": t.out_of_gas, "simulated_creations": t.creations,
         "exhaustive": t.complete, "machinery_errors": errors,
     });
     ev.assumptions = vec!["generated programs do not read remaining gas, time, randomness or the current Bitcoin transaction id".into(), "revm is trusted".into()];
     ev.violations = new.len() as i64;
     ev.wall_s = t0.elapsed().as_secs_f64();
     ev.write();
-    println!("{} {}: cases={} sim ok/fail={}/{} estimates={} lengths={} out-of-allowance={} creations={} complete={} wall={:.1}s", which, tier, t.cases, t.sim_success, t.sim_failure, t.estimates, t.lens_checked, t.out_of_gas, t.creations, t.complete, ev.wall_s);
+    println!("{} {}: cases={} sim ok/fail={}/{} estimates={} lengths={} drained={} out-of-allowance={} creations={} complete={} wall={:.1}s", which, tier, t.cases, t.sim_success, t.sim_failure, t.estimates, t.lens_checked, t.drained, t.out_of_gas, t.creations, t.complete, ev.wall_s);
     for (id, _) in known.iter().take(3) {
         println!("KNOWN-FINDING: property={} {}", which, id);
     }
